@@ -32,7 +32,7 @@ def domain(tier):
     ndiff = z3.Sum([z3.If(D1 != D2, 1, 0), z3.If(W1 != W2, 1, 0), z3.If(A1 != A2, 1, 0), z3.If(N1 != N2, 1, 0)])
     nodd = z3.Sum([z3.If(ED != 0, 1, 0), z3.If(EW != 0, 1, 0), z3.If(SHAPE != 0, 1, 0)])
     if tier == "thorough":
-        c += [z3.Or(z3.And(ndiff <= 3, nodd <= 1), z3.And(ndiff <= 1, nodd <= 2))]
+        c += [z3.Or(z3.And(ndiff <= 3, nodd == 0), z3.And(ndiff <= 2, nodd <= 1), z3.And(ndiff <= 1, nodd <= 2))]
     else:
         c += [ndiff <= 2, nodd <= 1, z3.Implies(ndiff == 2, nodd == 0), D1 <= 3, D2 <= 4, W1 <= 3]
     return c
@@ -149,7 +149,10 @@ def run_pair(ps, M, shim, cache, native_root=None):
             if after != before:
                 bad.append(("refusal-created-or-modified-files", "tree changed"))
     rec = dict(create=(d1, w1, ALGOS[a1], n1, "populated" if pop else "empty"),
-               reopen=(enc(d2, ed), enc(w2, ew), (ALGOS + BADALGOS)[a2], n2, shape), res=res, expect_ok=expect_ok, bad=bad)
+               reopen=(enc(d2, ed), enc(w2, ew), (ALGOS + BADALGOS)[a2], n2, shape), res=res, expect_ok=expect_ok, bad=bad,
+               sel={"c_depth": d1, "c_width": w1, "c_algo": a1, "c_ns": n1, "populated": bool(pop), "r_depth": d2,
+                    "r_width": w2, "r_algo": a2, "r_ns": n2, "enc_depth": ENC.index(ed), "enc_width": ENC.index(ew),
+                    "shape": SHAPES.index(shape)})
     if bad:
         rec["vals"] = ps.model_values(ALLV)
     return rec
@@ -215,12 +218,16 @@ def replay(tier, payload):
     MN = loader.load("filehashstore.py")
     root = scratch_root()
     try:
-        pins = [v == (z3.BoolVal(payload["vals"][str(v)]) if isinstance(payload["vals"][str(v)], bool)
-                      else z3.IntVal(payload["vals"][str(v)])) for v in ALLV if str(v) in payload["vals"]]
-        ps = PathSym(pins)
         fn = run_fresh if payload.get("fresh") else run_pair
-        recs = ps.explore(lambda p: fn(p, MN, None, {}, native_root=root) if fn is run_pair else fn(p, MN, None, native_root=root))
-        r = recs[0]
+        r = None
+        # one unpatched module and one store path for the whole history, as in one long-running process
+        for vals in list(payload["vals"].get("history") or []) + [payload["vals"]]:
+            pins = [v == (z3.BoolVal(vals[str(v)]) if isinstance(vals[str(v)], bool) else z3.IntVal(vals[str(v)]))
+                    for v in ALLV if str(v) in vals]
+            ps = PathSym(pins)
+            recs = ps.explore(lambda p: fn(p, MN, None, {}, native_root=root) if fn is run_pair
+                              else fn(p, MN, None, native_root=root))
+            r = recs[0]
         hit = [b for b in r["bad"] if b[0] in payload["clauses"]]
         return bool(hit), "native run (unpatched code, real file system): create %s, open with %s -> %s; failing=%s" % (
             r["create"], r["reopen"], r["res"], r["bad"])
@@ -245,7 +252,16 @@ def main(tier, replay_payload=None):
             return ps.explore(lambda p: run_fresh(p, M, shim)), ps.st.as_dict(), True
         a1, n1 = split
         ps = PathSym(domain(tier) + [A1 == a1, N1 == n1])
-        return ps.explore(lambda p: run_pair(p, M, shim, cache)), ps.st.as_dict(), False
+        seen = []
+
+        def one(p):
+            r = run_pair(p, M, shim, cache)
+            if r["bad"]:
+                # the process-level history that preceded this pair (same module, same store path)
+                r["vals"]["history"] = [seen[0], seen[-1]] if len(seen) > 1 else list(seen)
+            seen.append(r.pop("sel"))
+            return r
+        return ps.explore(one), ps.st.as_dict(), False
     splits = [(a, n) for a in range(len(ALGOS)) for n in range(2)] + ["fresh"]
     for recs, st, fresh in par_explore(worker, splits):
         run.add_stats(st)
@@ -268,7 +284,7 @@ def main(tier, replay_payload=None):
     run.bounds = dict(creation="depth 1-5 (quick 1-3) x width 1-4 (quick 1-3) x 5 algorithms x 2 namespaces, empty or populated",
                       reopening="depth 1-5 x width 1-4 x (5 algorithms + %d unsupported names/spellings) x 2 namespaces x "
                                 "int / str / padded-str encodings x %d property shapes" % (len(BADALGOS), len(SHAPES)),
-                      constraint="quick: differs from the creation configuration in <= 2 keys with <= 1 odd encoding/shape; thorough: (<= 3 keys and <= 1 odd) or (<= 1 key and <= 2 odd)",
+                      constraint="quick: differs from the creation configuration in <= 2 keys with <= 1 odd encoding/shape; thorough: (<= 3 keys, 0 odd) or (<= 2 keys, <= 1 odd) or (<= 1 key, <= 2 odd)",
                       fresh_path="unsupported algorithm at creation; data directories without hashstore.yaml")
     run.explanation = ("Creation and reopening configurations are vectors of z3 selector variables constrained by a "
                        "difference budget; for every feasible vector the real constructor runs over the environment "
